@@ -226,17 +226,16 @@ def runModel (st : St) (q : Stmt) (having : List HTok) : String :=
       match staged with
       | .error e => errClass e
       | .ok t =>
-        let rows := sortRows S q.orderBy t.rows
+        -- ORDER BY, HAVING, LIMIT in the order of `queryPlan.Execute` (`postStages`)
         let hv : Except HErr (List Row) :=
           if q.hasHaving then
             match newEvaluator having with
-            | some e => havingFilter S e rows
+            | some e => postStages S q.orderBy (some e) q.limit t.rows
             | none => .error .badConstant
-          else .ok rows
+          else postStages S q.orderBy none q.limit t.rows
         match hv with
         | .error _ => "err"
         | .ok rows =>
-          let rows := match q.limit with | some n => limitRows n rows | none => rows
           if rows.isEmpty then
             (if (dedup q.outputBindings).length != q.outputBindings.length then "err"
              else showTable q.outputBindings [] false)
